@@ -90,7 +90,7 @@ class Env:
         return npx.symbolic(self.ps, self.ips, proxy=self.proxy, extra={self.ips.__name__: {"turb": CovUF()}})
 
 
-PARAMS = dict(r0=var("r0"), L0=var("L0"), delta=var("delta"), l0=var("l0"), seed=var("seed"))
+PARAMS = dict(r0=var("r0"), L0=var("L0"), delta=var("delta"), l0=var("l0"), seed=core.int_var("seed"))
 PRE = [z(PARAMS[k].re) > 0 for k in ("r0", "L0", "delta", "l0")] + [z(PARAMS["seed"].re) >= 0, z(PARAMS["seed"].re) == z3.ToReal(z3.ToInt(z(PARAMS["seed"].re)))]
 N_FFT = 2
 
@@ -98,12 +98,12 @@ N_FFT = 2
 def target(env, name, seed):
     """the seeded computation whose reproducibility is claimed; returns a list of arrays"""
     P = PARAMS
-    if name == "ft":
-        return [env.ps.ft_phase_screen(P["r0"], N_FFT, P["delta"], P["L0"], P["l0"], seed=seed)]
-    if name == "ftsh":
-        return [env.ps.ft_sh_phase_screen(P["r0"], N_FFT, P["delta"], P["L0"], P["l0"], seed=seed)]
-    if name == "vk":
-        s = env.ips.PhaseScreenVonKarman(2, P["delta"], P["r0"], P["L0"], random_seed=seed, n_columns=2)
+    if name in ("ft", "ft3"):
+        return [env.ps.ft_phase_screen(P["r0"], N_FFT if name == "ft" else 3, P["delta"], P["L0"], P["l0"], seed=seed)]
+    if name in ("ftsh", "ftsh3"):
+        return [env.ps.ft_sh_phase_screen(P["r0"], N_FFT if name == "ftsh" else 3, P["delta"], P["L0"], P["l0"], seed=seed)]
+    if name in ("vk", "vk3"):
+        s = env.ips.PhaseScreenVonKarman(2 if name == "vk" else 3, P["delta"], P["r0"], P["L0"], random_seed=seed, n_columns=2)
     else:
         s = env.ips.PhaseScreenKolmogorov(2, P["delta"], P["r0"], P["L0"], random_seed=seed, stencil_length_factor=1)
     out = [numpy.asarray(s.scrn, dtype=object).copy()]
@@ -213,12 +213,12 @@ def real_run(tname, ops, vals):
             keep.append(o)
     live = LIVE in ops
     seed = vals["seed"]
-    if tname == "ft":
-        out = [ps.ft_phase_screen(vals["r0"], 8, vals["delta"], vals["L0"], vals["l0"], seed=seed)]
-    elif tname == "ftsh":
-        out = [ps.ft_sh_phase_screen(vals["r0"], 8, vals["delta"], vals["L0"], vals["l0"], seed=seed)]
+    if tname in ("ft", "ft3"):
+        out = [ps.ft_phase_screen(vals["r0"], 8 if tname == "ft" else 9, vals["delta"], vals["L0"], vals["l0"], seed=seed)]
+    elif tname in ("ftsh", "ftsh3"):
+        out = [ps.ft_sh_phase_screen(vals["r0"], 8 if tname == "ftsh" else 9, vals["delta"], vals["L0"], vals["l0"], seed=seed)]
     else:
-        s = ips.PhaseScreenVonKarman(8, vals["delta"], vals["r0"], vals["L0"], random_seed=seed, n_columns=2) if tname == "vk" else \
+        s = ips.PhaseScreenVonKarman(8 if tname == "vk" else 9, vals["delta"], vals["r0"], vals["L0"], random_seed=seed, n_columns=2) if tname in ("vk", "vk3") else \
             ips.PhaseScreenKolmogorov(8, vals["delta"], vals["r0"], vals["L0"], random_seed=seed, stencil_length_factor=1)
         out = [numpy.array(s.scrn)]
         for i in range(3):
@@ -238,6 +238,17 @@ def replay_history(tname, ops, vals):
     bad = ref != a or ref != b
     return bad, dict(what="seeded %s differs from the history-free run after %s" % (tname, list(ops)) if bad else "bit-identical", seed=vals["seed"], params=vals,
                      reference=ref[:2], after_history=a[:2])
+
+
+def replay_differ(tname, s1, s2, vals):
+    s1, s2 = int(round(float(s1))), int(round(float(s2)))
+    if s1 == s2 or s1 < 0 or s2 < 0:
+        return False, dict(what="witness seeds are not two different non-negative integers", seeds=[s1, s2])
+    v1, v2 = dict(vals), dict(vals)
+    v1["seed"], v2["seed"] = s1, s2
+    a = harness.pristine_eval(real_run, tname, [], v1)
+    b = harness.pristine_eval(real_run, tname, [], v2)
+    return a == b, dict(what="seeds %d and %d give %s screens" % (s1, s2, "IDENTICAL" if a == b else "different"), seeds=[s1, s2])
 
 
 def model_params(m):
@@ -337,7 +348,7 @@ def case_differ(ctx, tname):
     """different seeds / unseeded calls are not forced equal"""
     env = Env()
     ctx.bounds.update(target=tname)
-    s2 = var("seedB")
+    s2 = core.int_var("seedB")
     with env.ctxmgr():
         paths, ex = core.run_paths(lambda: (target(env, tname, PARAMS["seed"]), target(env, tname, s2), target(env, tname, None), target(env, tname, None)),
                                    PRE + [z(s2.re) >= 0, z(s2.re) != z(PARAMS["seed"].re)], max_paths=50)
@@ -361,6 +372,27 @@ def case_differ(ctx, tname):
                         names.add(x.sexpr())
                     stack.extend(x.children())
             return names
+        def stream_ids(arr):
+            ids = {}
+            for e in numpy.asarray(arr, dtype=object).flat:
+                stack = [z(Sym.lift(e).re)]
+                seen = set()
+                while stack:
+                    x = stack.pop()
+                    if x.get_id() in seen:
+                        continue
+                    seen.add(x.get_id())
+                    if z3.is_app(x) and x.decl().name() == "draw":
+                        ids[x.arg(0).get_id()] = x.arg(0)
+                    stack.extend(x.children())
+            return list(ids.values())
+        ia, ib = stream_ids(a[0]), stream_ids(b[0])
+        # different seeds select different streams: the stream identifiers (functions of the seed as the code hands it
+        # to the generator) cannot coincide for two different non-negative integer seeds
+        s2i = [z(s2.re) == z3.ToReal(z3.ToInt(z(s2.re))), z(s2.re) >= 0, z(s2.re) != z(PARAMS["seed"].re)]
+        ctx.prove("path%d: two different seeds never select the same random stream" % pi, hyp + s2i,
+                  conj([x != y for x in ia for y in ib]) if ia and ib else z3.BoolVal(False),
+                  replay=lambda m: replay_differ(tname, m(PARAMS["seed"]), m(s2), model_params(m)), witness_terms=dict(seed=PARAMS["seed"], seedB=s2), timeout_ms=30000)
         da, db, d1, d2 = draws(a[0]), draws(b[0]), draws(u1[0]), draws(u2[0])
         # the screens are functions of disjoint sets of independent draws, hence not forced equal; one pixel is also
         # handed to the solver (expected sat)
@@ -385,6 +417,10 @@ def build_cases(tier):
     live_progs = [("other-vk", LIVE), ("other-fried-row", LIVE), ("same-seed-other-instance", LIVE)]
     if tier != "quick":
         live_progs += [("other-vk", "other-fried-row", LIVE), (LIVE,), ("global-seed", "other-vk", LIVE)]
+    # odd grid sizes (N = 3 symbolic, 9 in the replay): one history each
+    for t in ("ft3", "ftsh3", "vk3"):
+        for p in ([(), ("global-draw",)] if tier == "quick" else [(), ("global-draw",), ("other-vk",), ("ft-other-l0", "global-seed")]):
+            cases.append(("%s/history=%s" % (t, "+".join(p) or "none"), case_history, dict(tname=t, ops=list(p))))
     for t in targets:
         for p in progs + (live_progs if t in ("vk", "fried") else []):
             cases.append(("%s/history=%s" % (t, "+".join(p) or "none"), case_history, dict(tname=t, ops=list(p))))
